@@ -877,12 +877,12 @@ theorem step_ioCb (st : St) (s : PollSlot) : SigStep st (ioCb st s) := by
     · exact step_invokeWatch _ _ _ _
   · exact SigStep.refl _
 
-theorem step_ioLoop (fuel : Nat) : ∀ (st : St) (idx : Nat), SigStep st (ioLoop fuel st idx) := by
+theorem step_ioLoopT (fuel : Nat) : ∀ (st : St) (idx : Nat), SigStep st (ioLoopT fuel st idx).1 := by
   induction fuel with
-  | zero => intro st idx; unfold ioLoop; exact step_outOfFuel st
+  | zero => intro st idx; unfold ioLoopT; exact step_outOfFuel st
   | succ n ih =>
     intro st idx
-    unfold ioLoop
+    unfold ioLoopT
     split
     · exact SigStep.refl _
     · split
@@ -892,6 +892,8 @@ theorem step_ioLoop (fuel : Nat) : ∀ (st : St) (idx : Nat), SigStep st (ioLoop
         · split
           · exact ih _ _
           · exact (step_ioCb _ _).trans (ih _ _)
+
+theorem step_ioLoop (fuel : Nat) (st : St) (idx : Nat) : SigStep st (ioLoop fuel st idx) := step_ioLoopT fuel st idx
 
 theorem g2_foldl_raiseSig (l : List Int) : ∀ st : St, G2 st (l.foldl raiseSig st) := by
   induction l with
